@@ -35,11 +35,15 @@
 #define protected public
 #include "vsim.h"
 #include "colvarcomp.h"
+#include "colvars_memstream.h"
 
 struct c12_loc {
   std::string name;
   std::function<std::vector<double>()> get;
   std::function<void(std::vector<double> const &)> set;
+  bool readonly;             // observed (writes, dependences) but never perturbed
+  c12_loc(std::string const &n, std::function<std::vector<double>()> const &g, std::function<void(std::vector<double> const &)> const &st, bool ro = false)
+    : name(n), get(g), set(st), readonly(ro) {}
 };
 
 struct c12_session : public vsim_session {
@@ -102,6 +106,16 @@ struct c12_session : public vsim_session {
     for (size_t b = 0; b < cv->biases.size(); b++) {
       colvarbias *q = cv->biases[b];
       std::string id = std::to_string(b);
+      // outside the model's probe vocabulary: the bias' whole private state (hills, kernels, samples ...) as the bytes of its binary state;
+      // observed only (it is put back by the probe before every run), so that a dependence that shows up in what the bias DEPOSITS is seen
+      {
+        c12_loc st("XState:" + id,
+          [q]() { cvm::memory_stream os; q->write_state(os); std::vector<double> r; unsigned char const *p = os.output_buffer();
+                  for (size_t k = 0; k < os.length(); k++) r.push_back((double) p[k]); return r; },
+          [](std::vector<double> const &) {});
+        st.readonly = true;
+        L.push_back(st);
+      }
       L.push_back({"LBiasE:" + id, [q]() { return std::vector<double>{q->bias_energy}; }, [q](std::vector<double> const &r) { q->bias_energy = r[0]; }});
       for (size_t i = 0; i < q->colvar_forces.size(); i++) {
         L.push_back({"LBiasF:" + id + ":" + std::to_string(i),
@@ -123,9 +137,13 @@ struct c12_session : public vsim_session {
   static snap_t getall(std::vector<c12_loc> &L) { snap_t s; for (auto &l : L) s.push_back(l.get()); return s; }
   static void setall(std::vector<c12_loc> &L, snap_t const &s) { for (size_t i = 0; i < L.size(); i++) L[i].set(s[i]); }
 
-  void probe(std::string const &label, std::vector<c12_loc> &L, snap_t const &S0, std::function<void()> const &run_item)
+  void probe(std::string const &label, std::vector<c12_loc> &L, snap_t const &S0, std::function<void()> const &run_item_only,
+             std::function<void()> const &restore_private = std::function<void()>())
   {
     std::ostream &o = *out;
+    // private state of the item outside the locations (kernels, hills, samples, moving centres) is put back before every run
+    // from a binary state buffer, so that runs from the same snapshot repeat themselves
+    std::function<void()> run_item = [&]() { if (restore_private) restore_private(); run_item_only(); };
     setall(L, S0);
     run_item();
     snap_t S1 = getall(L);
@@ -141,7 +159,7 @@ struct c12_session : public vsim_session {
     }
     std::vector<size_t> R, Wsame;
     for (size_t j = 0; repeatable && j < L.size(); j++) {
-      if (S0[j].empty()) continue;
+      if (S0[j].empty() || L[j].readonly) continue;
       setall(L, S0);
       std::vector<double> pv(S0[j]);
       for (double &x : pv) x += 1.0;
@@ -154,10 +172,13 @@ struct c12_session : public vsim_session {
       }
       // only what the item really wrote counts (entries it left alone keep the perturbation of their own location)
       bool dep = false;
-      for (size_t w : W) for (size_t e = 0; e < S1[w].size(); e++) if (S1[w][e] != S0[w][e] && S2[w][e] != S1[w][e]) dep = true;
+      for (size_t w : W) {
+        if (L[w].readonly) { if (S2[w] != S1[w]) dep = true; continue; }
+        for (size_t e = 0; e < S1[w].size(); e++) if (S1[w][e] != S0[w][e] && S2[w][e] != S1[w][e]) dep = true;
+      }
       if (dep) R.push_back(j);
     }
-    o << "FP " << label << (repeatable ? "" : " NOTREPEATABLE") << " W=";
+    o << "FP " << label << (repeatable ? (restore_private ? " RESTORED" : "") : " NOTREPEATABLE") << " W=";
     for (size_t k = 0; k < W.size(); k++) o << (k ? "," : "") << L[W[k]].name;
     o << " R=";
     for (size_t k = 0; k < R.size(); k++) o << (k ? "," : "") << L[R[k]].name;
@@ -193,12 +214,24 @@ struct c12_session : public vsim_session {
     cv->total_bias_energy = 0.0;
     // phase 3: the items of the bias loop
     snap_t S2 = getall(L);
+    // the private state of EVERY bias, saved once in binary form (exact) and read back before every run of the probe
+    std::shared_ptr<std::vector<std::shared_ptr<cvm::memory_stream> > > bufs(new std::vector<std::shared_ptr<cvm::memory_stream> >());
+    for (colvarbias *q : cv->biases) { bufs->push_back(std::shared_ptr<cvm::memory_stream>(new cvm::memory_stream())); q->write_state(*(bufs->back())); }
+    std::function<void()> restore_all = [cv, bufs]() {
+      int const ec = cvm::errorCode;
+      for (size_t k = 0; k < cv->biases.size(); k++) {
+        cvm::memory_stream is((*bufs)[k]->length(), (*bufs)[k]->output_buffer()); cv->biases[k]->read_state(is); }
+      cvm::errorCode = ec; };
+    bool const quiet_save = proxy->quiet;
+    std::ostream *logos_save = proxy->logos;
+    proxy->quiet = true; proxy->logos = NULL;     // reading a state logs a few lines every time
     for (colvarbias *b : *(cv->biases_active())) {
       int bi = -1;
       for (size_t k = 0; k < cv->biases.size(); k++) if (cv->biases[k] == b) bi = k;
-      probe("bias " + std::to_string(bi), L, S2, [b]() { b->update(); });
+      probe("bias " + std::to_string(bi), L, S2, [b]() { b->update(); }, restore_all);
     }
-    if (cv->use_scripted_forces && !cv->scripting_after_biases) probe("script", L, S2, [cv]() { cv->calc_scripted_forces(); });
+    if (cv->use_scripted_forces && !cv->scripting_after_biases) probe("script", L, S2, [cv]() { cv->calc_scripted_forces(); }, restore_all);
+    proxy->quiet = quiet_save; proxy->logos = logos_save;
     *out << "FPEND\n";
   }
 
